@@ -307,7 +307,7 @@ theorem cinv2_step {c : Cluster K} (h : CInv c) (h2 : CInv2 c) (e : CEv K) : CIn
     split
     · exact h2
     · exact cinv2_pool_step h h2 n e
-  | addNode perShard target =>
+  | addNode perShard target filt =>
     simp only [cstep]
     have hne : ∀ f ∈ c.fanouts, ∀ n ∈ f.nodes, setPool c.pools c.nNodes (Pool.init perShard target c.usedKs) n = c.pools n := by
       intro f hf n hn
@@ -464,11 +464,11 @@ theorem taskSent_step {c : Cluster K} (h : CInv c) (h3 : TaskSent c) (e : CEv K)
       split at ht'
       · rename_i hm; subst hm
         rcases step_tasks_back (h.pools m) e t' ht' with ⟨hu, _⟩ | ⟨t, ht, hid', _, halive⟩
-        · rw [hcond.1] at hu; cases hu
+        · rw [hcond.1.1] at hu; cases hu
         · obtain ⟨f0, hf0, hl, hr⟩ := h3 m t ht
           exact ⟨f0, hf0, by rw [hid']; exact hl, fun ha => hr (halive ha)⟩
       · exact h3 m t' ht'
-  | addNode perShard target =>
+  | addNode perShard target filt =>
     simp only [cstep]
     intro m t ht
     simp only [setPool] at ht
@@ -629,7 +629,7 @@ theorem cstrong_step {c : Cluster K} (h : CInv c) (h3 : TaskSent c) (hs : c.over
       simp only [Bool.or_eq_true, decide_eq_true_eq, not_or, Bool.not_eq_true] at hcond
       intro hov
       have hcs := hs hov
-      obtain ⟨g, hg, hgo, hgk, hgp⟩ := step_nonUse (h.pools n) e hcond.1
+      obtain ⟨g, hg, hgo, hgk, hgp⟩ := step_nonUse (h.pools n) e hcond.1.1
       unfold CStrong at hcs ⊢
       simp only
       cases hfs : c.fanouts with
@@ -655,7 +655,7 @@ theorem cstrong_step {c : Cluster K} (h : CInv c) (h3 : TaskSent c) (hs : c.over
             split
             · rename_i hmn; subst hmn; rw [hg, hgk, hgo, h1.1]; exact ⟨rfl, h1.2⟩
             · exact h1
-  | addNode perShard target =>
+  | addNode perShard target filt =>
     simp only [cstep]
     intro hov
     have hcs := hs hov
@@ -893,7 +893,7 @@ theorem sentInj_step {c : Cluster K} (h : CInv c) (hi : SentInj c) (e : CEv K) :
             omega
           · rw [hid0, hid1]
   | pool n e => simp only [cstep]; split <;> exact hi
-  | addNode perShard target => simp only [cstep]; exact hi
+  | addNode perShard target filt => simp only [cstep]; exact hi
   | removeNode n => simp only [cstep]; exact hi
   | fanoutFinish fid =>
     simp only [cstep]
@@ -939,7 +939,7 @@ theorem fanout_persists (c : Cluster K) (e : CEv K) (f : Fanout K) (hf : f ∈ c
       · exact ⟨f, hf, rfl, rfl⟩
       · exact hmod _ _ (fun x => ⟨rfl, rfl⟩)
   | pool n e => simp only [cstep]; split <;> exact ⟨f, hf, rfl, rfl⟩
-  | addNode perShard target => exact ⟨f, hf, rfl, rfl⟩
+  | addNode perShard target filt => exact ⟨f, hf, rfl, rfl⟩
   | removeNode n => exact ⟨f, hf, rfl, rfl⟩
   | fanoutFinish fid =>
     simp only [cstep]
